@@ -558,6 +558,235 @@ def shape_docs():
     return docs
 
 
+def history_docs():
+    """history-focused templates (C06)"""
+    docs = []
+
+    def add(root, name, **kw):
+        docs.append(Doc(root, family="hist", name=name, **kw))
+
+    for deep in (False, True):
+        # nested two levels: m{ h, a{a1,a2}, b{b1,b2{b21,b22}} }, leave from several places, re-enter via h / m / deeper
+        a1, a2, b1, b21, b22 = S("a1"), S("a2"), S("b1"), S("b21"), S("b22")
+        b2 = S("b2", b21, b22)
+        a, b = S("a", a1, a2), S("b", b1, b2)
+        h = H("h", deep=deep)
+        m = S("m", h, a, b)
+        h.t(None, b1, body=[mark("hdef")])
+        o = S("o")
+        a1.t("e1", a2)
+        a2.t("e1", b22)
+        b22.t("e1", b1)
+        b1.t("e1", a1)
+        m.t("e2", o)
+        o.t("e1", h)
+        o.t("e2", m)
+        o.t("e3", b21)
+        add(ROOT(m, o), "nested-%s" % ("deep" if deep else "shallow"), alphabet=["e1", "e2", "e3"])
+
+    # two history states in the same parent (shallow + deep), defaults with content, default target deeper than child
+    c1, c2, c21, c22 = S("c1"), S("c2"), S("c21"), S("c22")
+    c2.add(c21)
+    c2.add(c22)
+    hs, hd = H("hs"), H("hd", deep=True)
+    c = S("c", c1, hs, c2, hd)
+    hs.t(None, c2, body=[mark("hs-def")])
+    hd.t(None, c22, body=[mark("hd-def")])
+    o = S("o")
+    c1.t("e1", c21)
+    c21.t("e1", c22)
+    c22.t("e1", c1)
+    c.t("e2", o)
+    o.t("e1", hs)
+    o.t("e2", hd)
+    o.t("e3", [hs])
+    r = ROOT(o, c)
+    add(r, "two-histories", alphabet=["e1", "e2", "e3"])
+
+    # history of a parallel state (deep): restores all regions
+    for deep in (False, True):
+        q1, q2, r1, r2, r21 = S("q1"), S("q2"), S("r1"), S("r2"), S("r21")
+        r2.add(r21)
+        rq, rr = S("rq", q1, q2), S("rr", r1, r2)
+        hp = H("hp", deep=deep)
+        p = P("p", hp, rq, rr)
+        hp.t(None, [q2, r21] if deep else [rq])
+        o = S("o")
+        q1.t("e1", q2)
+        r1.t("e1", r21)
+        q2.t("e3", q1)
+        p.t("e2", o)
+        o.t("e1", hp)
+        o.t("e2", p)
+        o.t("e3", [q2])
+        add(ROOT(p, o), "parallel-%s" % ("deep" if deep else "shallow"), alphabet=["e1", "e2", "e3"])
+
+    # history inside a region that is left by a transition from the *other* region; re-entry through history
+    # while the parallel is re-entered by default in the other region
+    q1, q2, r1, r2 = S("q1"), S("q2"), S("r1"), S("r2")
+    hq = H("hq", deep=True)
+    rq, rr = S("rq", q1, q2, hq), S("rr", r1, r2)
+    hq.t(None, q1)
+    p = P("p", rq, rr)
+    o = S("o")
+    q1.t("e1", q2)
+    r1.t("e1", r2)
+    r2.t("e2", o)
+    r1.t("e3", o)
+    o.t("e1", hq)
+    o.t("e2", [hq, r2])
+    o.t("e3", p)
+    add(ROOT(p, o), "region-history", alphabet=["e1", "e2", "e3"])
+
+    # history as initial target and as target of an internal transition of the parent
+    k1, k2, k3 = S("k1"), S("k2"), S("k3")
+    hk = H("hk")
+    k = S("k", hk, k1, k2, k3)
+    hk.t(None, k2)
+    k.initial = ("attr", [hk])
+    o = S("o")
+    k1.t("e1", k3)
+    k2.t("e1", k1)
+    k3.t("e1", k2)
+    k.t("e2", o)
+    k.t("e3", hk, internal=True)
+    o.t("e1", k)
+    o.t("e2", hk)
+    r = ROOT(k, o)
+    add(r, "history-initial", alphabet=["e1", "e2", "e3"])
+    return docs
+
+
+def final_docs():
+    """final states / done events / shutdown (C07)"""
+    docs = []
+
+    def add(root, name, **kw):
+        docs.append(Doc(root, family="final", name=name, **kw))
+
+    # compound with two finals, done.state handled by parent and by grandparent
+    f1, f2 = F("f1"), F("f2")
+    u1 = S("u1")
+    u = S("u", u1, f1, f2)
+    u1.t("e1", f1)
+    u1.t("e2", f2)
+    w = S("w", u)
+    w.t("done.state.u", None, body=[mark("w-done-u")])
+    top = F("top")
+    w.t("e3", top)
+    add(ROOT(w, top), "two-finals", alphabet=["e1", "e2", "e3"])
+
+    # parallel: three regions, finals reached in different orders; done.state.p exactly once per completion
+    regs = []
+    fins = []
+    for i in (1, 2, 3):
+        s, f = S("g%d" % i), F("ff%d" % i)
+        s.t("e%d" % i, f)
+        regs.append(S("reg%d" % i, s, f))
+        fins.append(f)
+    p = P("p", *regs)
+    o = S("o")
+    p.t("done.state.p", o, body=[mark("p-done")])
+    p.t("done.state.reg1", None, body=[mark("reg1-done")])
+    o.t("e1", p)
+    top = F("top")
+    o.t("e2", top)
+    add(ROOT(p, o, top), "parallel-finals", alphabet=["e1", "e2", "e3"])
+
+    # nested parallel: inner parallel completes -> done.state.inner region -> outer done
+    a, fa = S("a"), F("fa")
+    b, fb = S("b"), F("fb")
+    a.t("e1", fa)
+    b.t("e2", fb)
+    ip = P("ip", S("ia", a, fa), S("ib", b, fb))
+    c, fc = S("c"), F("fc")
+    c.t("e3", fc)
+    rx = S("rx", ip, F("fx"))
+    rx.t("done.state.ip", rx.kids[1], body=[mark("ip-done")])
+    ry = S("ry", c, fc)
+    op = P("op", rx, ry)
+    top = F("top")
+    op.t("done.state.op", top, body=[mark("op-done")])
+    add(ROOT(op, top), "nested-parallel-finals", alphabet=["e1", "e2", "e3"])
+
+    # top-level final reached while events are still queued; onexit of nested active states at shutdown
+    d1, d2 = S("d1"), S("d2")
+    d = S("d", d1, d2)
+    d1.t("e1", d2)
+    d2.onexit.append([braise("r1")])
+    top = F("top")
+    d2.t("e2", top)
+    d.t("e3", top, body=[braise("r2")])
+    top.onentry.append([braise("r3")])
+    add(ROOT(d, top), "top-final", alphabet=["e1", "e2", "e3"])
+
+    # cancel while in a parallel: all active states exit in reverse document order
+    x1, x2, y1 = S("x1"), S("x2"), S("y1")
+    x1.t("e1", x2)
+    p = P("p", S("rx", x1, x2), S("ry", y1))
+    add(ROOT(p), "cancel-parallel", alphabet=["e1", "zz"])
+
+    # final child entered directly as initial state, and by a multi-target transition
+    fa, fb = F("fa"), F("fb")
+    sa, sb = S("sa"), S("sb")
+    ra, rb = S("ra", fa, sa), S("rb", sb, fb)
+    p = P("p", ra, rb)
+    o = S("o")
+    o.t("e1", [fa, fb])
+    o.t("e2", p)
+    o.t("e3", [sa, fb])
+    sb.t("e1", fb)
+    p.t("done.state.p", o, body=[mark("p-done")])
+    r = ROOT(o, p)
+    add(r, "final-initial", alphabet=["e1", "e2", "e3"])
+    return docs
+
+
+C19_TOKENS = ["a", "ab", "abc", "A", "\u00e9", "\u00e9a", "\u65e5\u672c", "\u65e5\u672c\u8a9e", "e\u0301", "\U0001F600x"]
+
+
+def c19_names(tokens, rng=None, n3=60):
+    names = [[t] for t in tokens] + [[a, b] for a in tokens for b in tokens]
+    three = [[a, b, c] for a in tokens for b in tokens for c in tokens]
+    if rng is not None and len(three) > n3:
+        three = rng.sample(three, n3)
+    names += three
+    names += [["a", ""], ["a", "", "b"], ["ab", ""], ["\u00e9", "", "x"]]   # empty tokens: "a.", "a..b"
+    return names
+
+
+def c19_docs(tokens, rng=None, two_token=None, lists=20):
+    """one probe document per descriptor list: t1 = list under test (mark hit), t2 = '*' (mark miss);
+    a first transition 'go' raises a selection of names so that internal events are matched too."""
+    descs = [[t] for t in tokens]
+    two = [[a, b] for a in tokens for b in tokens]
+    if two_token is not None and rng is not None and len(two) > two_token:
+        two = rng.sample(two, two_token)
+    descs += two
+    probes = []
+    for d in descs:
+        for suffix in ("", ".", ".*"):
+            probes.append(([d], ".".join(d) + suffix))
+    probes.append(([["*"]], "*"))
+    r = rng or random.Random(0)
+    for _ in range(lists):
+        d1, d2 = r.choice(descs), r.choice(descs)
+        probes.append(([d1, d2], ".".join(d1) + r.choice(["", ".", ".*"]) + " " + ".".join(d2) + r.choice(["", ".*"])))
+        probes.append(([d1, ["*"]], ".".join(d1) + " *"))
+    docs = []
+    for i, (ev, spell) in enumerate(probes):
+        s = S("s")
+        inner = c19_names(tokens[:6], r, 10)
+        s.t("go", None, body=[raise_(n) for n in inner])
+        t1 = s.t(None, None)
+        t1.ev = ev
+        t1.spell = spell
+        s.t("*", None)
+        d = Doc(ROOT(s), family="c19", name="probe%d:%s" % (i, spell), alphabet=["go"])
+        docs.append(d)
+    return docs
+
+
 # ---------------------------------------------------------------- random documents
 def random_doc(rng, max_states=9, max_trans=8, history=True, finals=True, content=True, name=""):
     cnt = [0]
